@@ -20,6 +20,11 @@
  *     what the client prepared for (object smaller than the buffer, segmented answer for <= 4 bytes) both a clean
  *     completion with the server's bytes and a refusal are accepted.
  *
+ * Signatures: csdo-callback-count, csdo-callback-code, csdo-request-frames, csdo-request-refused, csdo-buffer-content,
+ * csdo-buffer-overrun, csdo-timeout-abort-frame, csdo-timeout-missing, csdo-early-timeout, csdo-busy, csdo-disabled,
+ * csdo-idle-response, csdo-timer-leak, and for server behaviour the client must not accept (it continues or reports
+ * code 0): csdo-expedited-response-unchecked, csdo-segment-response-unchecked, csdo-upload-length-unchecked.
+ *
  * cfg  0..15  part A (direction x 8 size shards): first transfer = every (size of the shard, timing profile) with every
  *                     deviation at every step, then after every gap a probe transfer.  quick: one deviation per
  *                     sequence (in the first or in the probe transfer); thorough: three transfers, two deviations
@@ -29,7 +34,8 @@
  * cfg 24      part C: probe-sized transfers only, a deviation in each of the first two (thorough: + third transfer)
  * cfg 25      part D: 70 s timeout (16-bit wrap), long transfer behind a short one, disabled client (1280h bit 31)
  *
- * --opt smin/smax: restrict the sizes; --opt skip=<mask of deviation kinds> / only=<kind>; --opt sigdev=1: triage signatures */
+ * --opt smin/smax: restrict the sizes; --opt skip=<mask of deviation kinds> / only=<kind>; triage only: --opt sigdev=1
+ * (signature extended by direction/deviation), --opt noleak=1 (no timer accounting at completion) */
 #include <stdlib.h>
 #include "node_common.h"
 
@@ -79,7 +85,7 @@ static struct {
     int      remaining;              /* ticks until the awaited response times out */
     int      act0, tim0;             /* timer pool occupancy before the request */
     int      stale; uint8_t stale_frm[8];   /* late answer of the previous transfer, delivered after the next request */
-    int      done[MAXSEQ]; uint32_t code[MAXSEQ]; int dirs[MAXSEQ];
+    int      done[MAXSEQ]; uint32_t code[MAXSEQ], fin_os[MAXSEQ]; int dirs[MAXSEQ];   /* per transfer: callbacks, code, object size served */
     int      act_init, tim_init;
     uint64_t trace;
 } H;
@@ -88,6 +94,7 @@ static CO_CSDO *CS;
 static uint32_t TXID, RXID;
 static int FAILED;
 static long n_closed;
+static int noleak;                       /* --opt noleak=1 (triage only): no timer accounting at completion, shows what a leftover timer does later */
 static int sigdev;                       /* --opt sigdev=1 (triage only): signature extended by direction and deviation of the transfer */
 static const char *sig_ext(const char *sig);
 #define FAIL(sig, ...) do { if (!FAILED) { FAILED = 1; mc_fail(sigdev ? sig_ext(sig) : (sig), __VA_ARGS__); mc_log("  >>> VIOLATION %s\n", sig); } } while (0)
@@ -193,7 +200,7 @@ static void expect_quiet(const char *what, const char *sig, int busy)
 {
     React r; observe(&r); if (FAILED) return;
     if (r.ncb) {
-        if (busy && r.code == CODE_TMO) FAIL("csdo-early-timeout", "timeout reported %s, %d tick(s) before the deadline (timeout %d ms)", what, H.remaining + 1, H.t.to);
+        if (busy && r.code == CODE_TMO) FAIL("csdo-early-timeout", "timeout reported %s, %d tick(s) before the deadline (timeout %d ms)", what, H.remaining, H.t.to);
         else FAIL(sig, "completion callback (code %08X) %s", r.code, what);
     } else if (r.nreq || r.nabort) FAIL(strcmp(sig, "csdo-callback-count") ? sig : "csdo-request-frames", "%d frame(s) sent %s (first byte %02X)", r.nreq + r.nabort, what, OBS.tx[0].d[0]);
 }
@@ -283,11 +290,11 @@ static int foreign_expected(int a)
 static void finish(uint32_t code)
 {
     int s = H.seq;
-    H.active = 0; H.done[s]++; H.code[s] = code;
+    H.active = 0; H.done[s]++; H.code[s] = code; H.fin_os[s] = H.os;
     mc_log("    transfer %d finished with code %08X\n", s, code);
     check_guards(s);
     if (!FAILED && code == 0 && H.t.dir == UP) check_content(s, H.os, "");
-    if (!FAILED) {
+    if (!FAILED && !noleak) {
         int a = tmr_used_act(), t = tmr_used_tim();
         if (a != H.act0 || t != H.tim0) FAIL("csdo-timer-leak", "after the %s transfer completed with code %08X %d timer action(s) / %d timer event(s) are in use, %d / %d before the request", H.t.dir == UP ? "upload" : "download", code, a, t, H.act0, H.tim0);
     }
@@ -310,12 +317,17 @@ static void wait_timeout(int lo, int hi, const char *what)
     FAIL("csdo-timeout-missing", "no completion callback within %d ticks after %s (timeout %d ms)", hi, what, H.t.to);
 }
 
-typedef struct { int cont, end_ok, end_fail, ignore, malformed; uint32_t fail_code; } Allow;
+/* sig0: signature used when the client accepts (continues / completes with code 0) what it must not accept */
+typedef struct { int cont, end_ok, end_fail, ignore, malformed; uint32_t fail_code; const char *sig0; } Allow;
+#define SIG_EXP "csdo-expedited-response-unchecked"
+#define SIG_SEG "csdo-segment-response-unchecked"
+#define SIG_LEN "csdo-upload-length-unchecked"
+static const char *sig_unchecked(void) { return H.t.size <= 4 ? SIG_EXP : SIG_SEG; }
 static void allow_for(Allow *a, int last)
 {
     memset(a, 0, sizeof *a);
     if (last) { if (!H.must_fail) a->end_ok = 1; } else a->cont = 1;
-    if (H.must_fail || H.may_fail) { a->end_fail = 1; a->ignore = 1; }
+    if (H.must_fail || H.may_fail) { a->end_fail = 1; a->ignore = 1; a->sig0 = H.t.size <= 4 ? SIG_EXP : H.must_fail ? SIG_LEN : 0; }
 }
 
 /* the client's reaction to a delivered response */
@@ -329,7 +341,7 @@ static void react(const Allow *al, const char *what)
         else if (r.nabort > 1) FAIL("csdo-request-frames", "%d abort frames after %s", r.nabort, what);
         else if (r.code == 0) {
             if (r.nabort) FAIL("csdo-callback-code", "abort frame (%08X) on the bus but completion code 0 after %s", r.acode, what);
-            else if (!al->end_ok) FAIL(al->malformed ? "csdo-malformed-accepted" : "csdo-callback-code", "completion with code 0 after %s (step %d of the %s of %d bytes)%s", what, H.k, H.t.dir == UP ? "upload" : "download", H.t.size,
+            else if (!al->end_ok) FAIL(al->sig0 ? al->sig0 : "csdo-callback-code", "completion with code 0 after %s (step %d of the %s of %d bytes)%s", what, H.k, H.t.dir == UP ? "upload" : "download", H.t.size,
                                        !H.must_fail ? "" : H.must_fail == 1 ? ": the server sent more than announced / than the buffer holds" : ": the server sent fewer bytes than it announced");
             else finish(0);
         } else {
@@ -342,7 +354,7 @@ static void react(const Allow *al, const char *what)
         if (!al->ignore) FAIL(al->cont ? "csdo-request-frames" : "csdo-callback-count", "no reaction to %s (step %d of the %s of %d bytes): %s expected", what, H.k, H.t.dir == UP ? "upload" : "download", H.t.size, al->cont ? "next request" : "completion callback");
         else { mc_log("    (frame ignored; the server stays silent)\n"); wait_timeout(H.remaining, H.t.to + 1, what); }
     } else if (r.nreq == 1) {
-        if (!al->cont) FAIL(al->malformed ? "csdo-malformed-accepted" : "csdo-request-frames", "client continues with request %02X%02X%02X%02X%02X%02X%02X%02X after %s (step %d of the %s of %d bytes)",
+        if (!al->cont) FAIL(al->sig0 ? al->sig0 : "csdo-request-frames", "client continues with request %02X%02X%02X%02X%02X%02X%02X%02X after %s (step %d of the %s of %d bytes)",
                             r.req->d[0], r.req->d[1], r.req->d[2], r.req->d[3], r.req->d[4], r.req->d[5], r.req->d[6], r.req->d[7], what, H.k, H.t.dir == UP ? "upload" : "download", H.t.size);
         else {
             uint8_t e[8]; uint32_t n;
@@ -402,7 +414,7 @@ static void tr_request(void)
             uint8_t f[8]; int last;
             finish(r.code); if (FAILED) return;
             srv_response(f, &last); idle_rx(f, "when the answer to a request arrives that the client already gave up");
-        } else FAIL("csdo-malformed-accepted", "late answer %02X%02X%02X%02X... of the previous transfer taken as the answer to the initiate request of %04X:%02X: %d callback(s) code %08X, %d request frame(s)",
+        } else FAIL(sig_unchecked(), "late answer %02X%02X%02X%02X... of the previous transfer taken as the answer to the initiate request of %04X:%02X: %d callback(s) code %08X, %d request frame(s)",
                     H.stale_frm[0], H.stale_frm[1], H.stale_frm[2], H.stale_frm[3], H.idx, H.sub, r.ncb, r.code, r.nreq);
     }
 }
@@ -444,10 +456,10 @@ static int tr_step(Dev dv)
         memset(f, 0, 8); f[0] = 0x80; mux_put(f); if (dv.kind == D_ABORT_IDX) f[2] ^= 0x01; else f[3] ^= 0x40; w_put32(f + 4, 0x06040043u); al.end_fail = 1; al.ignore = 1;
         snprintf(what, sizeof what, "abort with multiplexer %02X%02X:%02X", f[2], f[1], f[3]); break;
     case D_TOGGLE:
-        srv_response(f, &last); f[0] ^= 0x10; al.end_fail = 1; al.ignore = 1; al.malformed = 1;
+        srv_response(f, &last); f[0] ^= 0x10; al.end_fail = 1; al.ignore = 1; al.malformed = 1; al.sig0 = sig_unchecked();
         snprintf(what, sizeof what, "segment response %02X with the wrong toggle bit", f[0]); break;
     case D_FOREIGN:
-        foreign(dv.arg, f); al.end_fail = 1; al.ignore = 1; al.malformed = 1;
+        foreign(dv.arg, f); al.end_fail = 1; al.ignore = 1; al.malformed = 1; al.sig0 = sig_unchecked();
         snprintf(what, sizeof what, "response %02X that does not belong to this phase of the transfer", f[0]); break;
     case D_SIZE_MORE:   H.os = (uint32_t)H.t.size + 1; H.must_fail = 1; srv_response(f, &last); allow_for(&al, last); snprintf(what, sizeof what, "initiate response %02X for an object of %u bytes", f[0], H.os); break;
     case D_SIZE_LESS:   H.os = (uint32_t)H.t.size - 1; H.may_fail = 1;  srv_response(f, &last); allow_for(&al, last); snprintf(what, sizeof what, "initiate response %02X for an object of %u bytes", f[0], H.os); break;
@@ -456,10 +468,10 @@ static int tr_step(Dev dv)
     case D_MORE_DATA:
         H.must_fail = 1;
         if (dv.arg == 0) { H.extra = 2; srv_response(f, &last); allow_for(&al, last); snprintf(what, sizeof what, "final segment %02X without the last-segment flag", f[0]); }
-        else { srv_response(f, &last); f[0] = (uint8_t)((f[0] & 0x10) | 1); al.end_fail = 1; al.ignore = 1; al.malformed = 1; snprintf(what, sizeof what, "last segment %02X carrying 7 bytes where %d remain", f[0], H.t.size % 7); }
+        else { srv_response(f, &last); f[0] = (uint8_t)((f[0] & 0x10) | 1); al.end_fail = 1; al.ignore = 1; al.malformed = 1; al.sig0 = SIG_LEN; snprintf(what, sizeof what, "last segment %02X carrying 7 bytes where %d remain", f[0], H.t.size % 7); }
         break;
     case D_LESS_DATA:
-        H.must_fail = 2; srv_response(f, &last); f[0] |= 1; al.end_fail = 1; al.ignore = 1; al.malformed = 1;
+        H.must_fail = 2; srv_response(f, &last); f[0] |= 1; al.end_fail = 1; al.ignore = 1; al.malformed = 1; al.sig0 = SIG_LEN;
         snprintf(what, sizeof what, "segment %02X flagged as last after %u of %u bytes", f[0], H.off, H.os); break;
     default:
         srv_response(f, &last); allow_for(&al, last);
@@ -509,6 +521,7 @@ static void leaf(void)
     for (int i = 0; i < H.t.to + 2 && i < 8 && !FAILED; i++) { do_tick(); expect_quiet("after the last transfer of the sequence", "csdo-callback-count", 0); }
     for (int i = 0; i <= H.seq && !FAILED; i++) {
         check_guards(i);
+        if (!FAILED && H.dirs[i] == UP && H.done[i] == 1 && H.code[i] == 0) check_content(i, H.fin_os[i], " (checked again at the end of the sequence)");
         if (!FAILED && H.done[i] != 1) FAIL("csdo-callback-count", "transfer %d of the sequence got %d completion callbacks", i, H.done[i]);
     }
     if (!FAILED) { int a = tmr_used_act(), t = tmr_used_tim(); if (a != H.act_init || t != H.tim_init) FAIL("csdo-timer-leak", "at the end of the sequence %d timer action(s) / %d event(s) are in use, %d / %d initially", a, t, H.act_init, H.tim_init); }
@@ -667,7 +680,7 @@ static void setup(void)
     NSIZES = 0;
     for (int s = 1; s <= 300; s++) SIZES[NSIZES++] = s;
     SIZES[NSIZES++] = 889; SIZES[NSIZES++] = 1000; SIZES[NSIZES++] = 1999; SIZES[NSIZES++] = 2000;
-    skip_mask = mc_opt("skip", 0); only_dev = mc_opt("only", -1); sigdev = mc_opt("sigdev", 0);
+    skip_mask = mc_opt("skip", 0); only_dev = mc_opt("only", -1); sigdev = mc_opt("sigdev", 0); noleak = mc_opt("noleak", 0);
     memset(CID, 0, sizeof CID);
 }
 
@@ -678,7 +691,7 @@ static void special_seq(int n, const int (*tr)[8])
     run_sequence(c, 2 + 8 * n);
 }
 
-static const TSpec THIRD[2] = { {UP, 12, 5, 4}, {DOWN, 3, 2, 1} };
+static const TSpec THIRD[2] = { {UP, 3, 5, 4}, {DOWN, 12, 5, 4} };   /* third transfer; only the first one once two deviations are spent */
 static void run_cfg(int cfg, int tier)
 {
     setup();
